@@ -67,6 +67,67 @@ def local_overlap_probe(ctx, rep):
     _sh.rmtree(root, ignore_errors=True)
 
 
+def overlap_fail_probe(ctx, rep):
+    """Two sessions of one key family snapshot overlapping data at the same time; one of them fails for good on a LATE upload (after
+    the other one has completed, having seen the common chunks as present and only referenced them).  The snapshot that completed
+    must stay restorable whatever the failing command does on its way out."""
+    import asyncio, contextlib, io, shutil as _sh
+    from pathlib import Path
+    from harness.memstore import MemBackend
+    from harness.repo_hist import FaultBackend
+    from replicat.repository import Repository
+    for trial in range(3):
+        wd = Path(ctx.scratch) / f'overlap-fail-{trial}'
+        (wd / 'common').mkdir(parents=True)
+        (wd / 'extra').mkdir(parents=True)
+        common = ctx.rng.randbytes(64 * 8)
+        (wd / 'common' / 'shared.bin').write_bytes(common)
+        (wd / 'extra' / 'zzz-own.bin').write_bytes(ctx.rng.randbytes(64 * 30))
+        be = MemBackend(ctx.rng, 0.002)
+        out = {}
+
+        async def go():
+            r0 = Repository(be, concurrent=2, quiet=True, cache_directory=None)
+            await r0.init(settings={'encryption': None, 'chunking': {'min_length': 64, 'max_length': 64}, 'hashing': {'name': 'blake2b', 'length': 16}})
+            # the failing session: common data first (smaller file), then its own; the upload that fails is one of the last
+            fb = FaultBackend(be, 'fail_late', 8 + 12 + trial * 7)
+            ra = Repository(fb, concurrent=2, quiet=True, cache_directory=None)
+            await ra.unlock()
+            rb = Repository(be, concurrent=2, quiet=True, cache_directory=None)
+            await rb.unlock()
+
+            async def b_later():
+                await asyncio.sleep(0.05)            # B starts once A has uploaded the common chunks
+                return await rb.snapshot(paths=[wd / 'common'])
+            res = await asyncio.wait_for(asyncio.gather(ra.snapshot(paths=[wd / 'common', wd / 'extra']), b_later(), return_exceptions=True), 60)
+            fb.dead = True
+            out['a'], out['b'] = res
+            if not isinstance(res[1], BaseException):
+                out['missing'] = [d for d in res[1].chunks if rb._chunk_digest_to_location(d) not in be.objects]
+                rr = Repository(be, concurrent=2, quiet=True, cache_directory=None)
+                await rr.unlock()
+                (wd / 'out').mkdir()
+                try:
+                    await rr.restore(snapshot_regex='^' + res[1].name + '$', path=wd / 'out')
+                    t = Path(wd / 'out', *Path(str((wd / 'common' / 'shared.bin').resolve())).parts[1:])
+                    out['restored'] = t.is_file() and t.read_bytes() == common
+                except Exception as e:
+                    out['restored'] = f'{type(e).__name__}: {str(e)[:60]}'
+        with contextlib.redirect_stdout(io.StringIO()), contextlib.redirect_stderr(io.StringIO()):
+            asyncio.run(go())
+        _sh.rmtree(wd, ignore_errors=True)
+        rep.case(('overlap-fail', trial, isinstance(out.get('a'), BaseException)), nontrivial=isinstance(out.get('a'), BaseException))
+        rep.count('overlap_fail_probe')
+        if isinstance(out.get('b'), BaseException):
+            rep.violations.append({'what': f'a fault-free snapshot overlapping a failing one raised {type(out["b"]).__name__}: {str(out["b"])[:100]}',
+                                   'signature': {'kind': 'exception', 'probe': 'overlap_fail'}, 'replay': {'probe': 'overlap_fail'}})
+        elif out.get('missing') or out.get('restored') is not True:
+            rep.violations.append({'what': f'a snapshot that completed lost {len(out.get("missing") or [])} of its chunks when an overlapping snapshot command of the same key family '
+                                           f'failed on a late upload (restore: {out.get("restored")})',
+                                   'signature': {'kind': 'referenced_chunk_missing', 'probe': 'overlap_fail'}, 'replay': {'probe': 'overlap_fail'}})
+            return
+
+
 CLI_MINE = ('exception', 'hang', 'snapshot_unreadable', 'snapshot_objects', 'snapshot_name', 'restore_mismatch', 'referenced_chunk_missing', 'gc_overreach', 'unknown_object', 'stored_bytes', 'snapshot_not_listed')
 
 
@@ -75,6 +136,7 @@ def _run(ctx, n, nops, rep):
     repo_hist.run_batch(seeds, ctx.scratch, rep, nops=nops, weights=WEIGHTS, checks=CHECKS,
                         concurrent=ctx.rng.choice([1, 2, 3]), delay=0.001)
     local_overlap_probe(ctx, rep)
+    overlap_fail_probe(ctx, rep)
     rep.violations[:] = [v for v in rep.violations if v['signature']['kind'] in
                          ('restore_mismatch', 'referenced_chunk_missing', 'gc_overreach', 'exception', 'unknown_object', 'failed_gc_mutated', 'chunk_mixed_by_overlapping_uploads')]
     # the same property through the tool as a user runs it: fresh `python -m replicat` processes, a repository on disk, real faults
@@ -100,6 +162,12 @@ def replay(ctx, obj):
     rc = cli_hist.replay_cli(ctx, obj, CLI_MINE)
     if rc is not None:
         return rc
+    if (obj.get('replay') or {}).get('probe') == 'overlap_fail':
+        rep = Report(rule=RULE)
+        overlap_fail_probe(ctx, rep)
+        for v in rep.violations:
+            print('VIOLATION-REPRODUCED', v['what'])
+        return 1 if rep.violations else 0
     if (obj.get('replay') or {}).get('probe') == 'remote':
         rep = Report(rule=RULE)
         remote_hist.remote_probe(ctx, rep, ('exception', 'restore_mismatch', 'referenced_chunk_missing'), deployments=[obj['replay']['deployment']])
